@@ -111,7 +111,7 @@ ENGINE_OF["C09"] = "tla-history"
 
 # what was added to the coverage after the texts above were written (DESIGN.md section 12 has the history)
 ADDED = {
- "C19": " A bad change name after a two-byte letter (columns count bytes).",
+ "C19": " A bad change name after a two-byte letter (columns count bytes); declarations cut short ('var', 'var x,'), where the offending token is the next token or the end of the section.",
  "C14": " Sequential and parallel histories also over two import-editing patches (import named by a metavariable over named / unnamed files; two imports deleted from commented blocks).",
  "C13": " T10: an empty line written as a lone '-' / '+' pair; a context line inside a raw string literal (known finding).",
  "C11": " The parsed patch may have been applied to other files before the subject (prior); repeated applications must return the same bytes; import blocks with leading comment lines.",
